@@ -22,17 +22,17 @@ def exclude(ctx, ob):
 
 def main(tier):
     ck = propcheck.Check('C14', tier)
-    N = 7 if tier == 'quick' else 10
+    N = 6 if tier == 'quick' else 10
     ck.assumptions += ['version alphabet: digits . - + v and the letters R C r c a b (covers v prefix, pre-release in either case, build metadata, 2- and 3-component versions); years are the constants 2025/2026',
                        'accepted versions = language of the validation regex constant of Masterminds/semver/v3 read from the dependency (over-approximation of NewVersion; models are confirmed natively with the real NewVersion)',
                        'history independence proved as a one-step lemma from an arbitrary accepted previous version (induction over runs)',
                        'final-newline addition and CR stripping by the line scanner are outside this check']
     jobs = []
-    lens = [(a, b) for a in range(1, N + 1) for b in (1, 3, 5, N)] if tier == 'quick' else [(a, b) for a in range(1, N + 1) for b in range(1, N + 1)]
+    lens = [(a, b) for a in range(1, N + 1) for b in (1, 3, 5)] if tier == 'quick' else [(a, b) for a in range(1, N + 1) for b in range(1, N + 1)]
     for kind in range(5):
         for a, b in (lens if kind != 3 else [(x, y) for x in (1, 2, 3) for y in (1, 2, 3)]):
             jobs.append(('chore.VerifC14History', dict(fixlen={'v1': a, 'v2': b}, params={'kind': kind}, unwind=60, exclude=exclude, timeout_ms=120000, terminal_obligations=())))
-    rs, viol = ck.run('one-step-history', jobs, bounds={'version_len': '1..%d (digits-only setup version marker: 1..3)' % N, 'marker_kinds': 5})
+    rs, viol = ck.run('one-step-history', jobs, job_timeout=120 if tier == 'quick' else 900, bounds={'version_len': '1..%d (digits-only setup version marker: 1..3)' % N, 'marker_kinds': 5})
     ck.triage(viol)
     jobs = [('chore.VerifC14Untouched', dict(fixlen={'line': L, 'v1': 5}, unwind=60, timeout_ms=120000, terminal_obligations=())) for L in range(0, 15)]
     rs, viol = ck.run('non-marker-lines', jobs, bounds={'line_len': '0..14'})
